@@ -42,9 +42,11 @@ Calls ==
        /\ Ev.rejected = Ev.sent - Ev.admitted /\ Ev.rejectederr = Ev.rejected   \* ... and get an error reply
        /\ tokens' = IF avail - Ev.admitted < 0 THEN 0 ELSE avail - Ev.admitted
   /\ UNCHANGED <<lim, live, unl, cap, once>> /\ Step
-Known == {"Reset", "Op", "Probe", "Calls", "Stuck"}
+\* a new plugin instance: its bucket starts full
+Fresh == Is("Fresh") /\ tokens' = cap /\ UNCHANGED <<lim, live, unl, cap, once>> /\ Step
+Known == {"Reset", "Op", "Probe", "Calls", "Stuck", "Fresh"}
 Skip == l <= N /\ Ev.ev \notin Known /\ UNCHANGED <<lim, live, unl, tokens, cap, once>> /\ Step
-Next == Reset \/ Op \/ Probe \/ Calls \/ Skip
+Next == Reset \/ Op \/ Probe \/ Calls \/ Fresh \/ Skip
 Spec == Init /\ [][Next]_vars
 Accepted == PrintT(<<"HWM", TLCGet(1), N>>) /\ TRUE
 =============================================================================
